@@ -52,7 +52,7 @@ Section DecodeTrait.
     unambiguous t (json_attempts t jv) owner -> decode_json t jv = Some owner.
   Proof.
     intros jv s Hcell Hs Hu. apply (decode_trait_json d o t Hwf Hgen c r jv Hc Hp Hr); [|exact Hu].
-    fold cellv. rewrite Hcell. unfold json_attempts. rewrite Hs. apply in_or_app. left. left. reflexivity.
+    fold cellv. rewrite Hcell. unfold json_attempts, json_attempts_gen. rewrite Hs. apply in_or_app. left. left. reflexivity.
   Qed.
   Lemma json_typed_string : forall jv s, col_kind c = KString -> ti_json_own (col_info c) = false ->
     cellv = typed c (PStr s) -> jv_string jv = Some s ->
@@ -62,18 +62,18 @@ Section DecodeTrait.
     fold cellv. rewrite Hcell. apply json_tries_string; [|assumption]. apply in_family; assumption.
   Qed.
   Lemma json_int : forall jv z, col_kind c = KInt64 -> ti_json_own (col_info c) = false ->
-    cellv = typed_int c z -> jv_i64 jv = Some z ->
+    cellv = typed_int c z -> conv_int (col_bkind c) z = z -> jv_i64 jv = Some z ->
     unambiguous t (json_attempts t jv) owner -> decode_json t jv = Some owner.
   Proof.
-    intros jv z Hk Ho Hcell Hs Hu. apply (decode_trait_json d o t Hwf Hgen c r jv Hc Hp Hr); [|exact Hu].
-    fold cellv. rewrite Hcell. apply json_tries_int; [|assumption]. apply in_family; assumption.
+    intros jv z Hk Ho Hcell Hfit Hs Hu. apply (decode_trait_json d o t Hwf Hgen c r jv Hc Hp Hr); [|exact Hu].
+    fold cellv. rewrite Hcell. apply json_tries_int; [|assumption|exact Hfit]. apply in_family; assumption.
   Qed.
   Lemma json_uint : forall jv z, col_kind c = KUint64 -> ti_json_own (col_info c) = false ->
-    cellv = typed_int c z -> jv_u64 jv = Some z ->
+    cellv = typed_int c z -> conv_int (col_bkind c) z = z -> jv_u64 jv = Some z ->
     unambiguous t (json_attempts t jv) owner -> decode_json t jv = Some owner.
   Proof.
-    intros jv z Hk Ho Hcell Hs Hu. apply (decode_trait_json d o t Hwf Hgen c r jv Hc Hp Hr); [|exact Hu].
-    fold cellv. rewrite Hcell. apply json_tries_uint; [|assumption]. apply in_family; assumption.
+    intros jv z Hk Ho Hcell Hfit Hs Hu. apply (decode_trait_json d o t Hwf Hgen c r jv Hc Hp Hr); [|exact Hu].
+    fold cellv. rewrite Hcell. apply json_tries_uint; [|assumption|exact Hfit]. apply in_family; assumption.
   Qed.
   Lemma json_native : forall jv p, ti_json_own (col_info c) = true ->
     cellv = typed c p -> lookup (col_type c) (jv_native jv) = Some (Some p) ->
@@ -88,7 +88,7 @@ Section DecodeTrait.
     unambiguous t (yaml_attempts_gen true t yv) owner -> decode_yaml t yv = Some owner.
   Proof.
     intros yv s Hcell Hs Hu. apply (decode_trait_yaml d o t Hwf Hgen c r yv Hc Hp Hr); [|exact Hu].
-    fold cellv. rewrite Hcell. unfold yaml_attempts_gen. left. rewrite Hs. reflexivity.
+    fold cellv. rewrite Hcell. unfold yaml_attempts_gen, yaml_attempts_gen2. left. rewrite Hs. reflexivity.
   Qed.
   Lemma yaml_typed_string : forall yv s, col_kind c = KString -> ti_yaml_own (col_info c) = false ->
     cellv = typed c (PStr s) -> yv_value yv = s ->
@@ -98,18 +98,18 @@ Section DecodeTrait.
     fold cellv. rewrite Hcell, <- Hs. apply yaml_tries_string. apply in_family; assumption.
   Qed.
   Lemma yaml_int : forall yv z, col_kind c = KInt64 -> ti_yaml_own (col_info c) = false ->
-    cellv = typed_int c z -> yv_i64 yv = Some z ->
+    cellv = typed_int c z -> conv_int (col_bkind c) z = z -> yv_i64 yv = Some z ->
     unambiguous t (yaml_attempts_gen true t yv) owner -> decode_yaml t yv = Some owner.
   Proof.
-    intros yv z Hk Ho Hcell Hs Hu. apply (decode_trait_yaml d o t Hwf Hgen c r yv Hc Hp Hr); [|exact Hu].
-    fold cellv. rewrite Hcell. apply yaml_tries_int; [|assumption]. apply in_family; assumption.
+    intros yv z Hk Ho Hcell Hfit Hs Hu. apply (decode_trait_yaml d o t Hwf Hgen c r yv Hc Hp Hr); [|exact Hu].
+    fold cellv. rewrite Hcell. apply yaml_tries_int; [|assumption|exact Hfit]. apply in_family; assumption.
   Qed.
   Lemma yaml_uint : forall yv z, col_kind c = KUint64 -> ti_yaml_own (col_info c) = false ->
-    cellv = typed_int c z -> yv_u64 yv = Some z ->
+    cellv = typed_int c z -> conv_int (col_bkind c) z = z -> yv_u64 yv = Some z ->
     unambiguous t (yaml_attempts_gen true t yv) owner -> decode_yaml t yv = Some owner.
   Proof.
-    intros yv z Hk Ho Hcell Hs Hu. apply (decode_trait_yaml d o t Hwf Hgen c r yv Hc Hp Hr); [|exact Hu].
-    fold cellv. rewrite Hcell. apply yaml_tries_uint; [|assumption]. apply in_family; assumption.
+    intros yv z Hk Ho Hcell Hfit Hs Hu. apply (decode_trait_yaml d o t Hwf Hgen c r yv Hc Hp Hr); [|exact Hu].
+    fold cellv. rewrite Hcell. apply yaml_tries_uint; [|assumption|exact Hfit]. apply in_family; assumption.
   Qed.
   Lemma yaml_native : forall yv p, ti_yaml_own (col_info c) = true ->
     cellv = typed c p -> lookup (col_type c) (yv_native yv) = Some (Some p) ->
@@ -201,14 +201,14 @@ Qed.
 Definition json_holds_decodable (c : column) (jv : jview) (x : dyn) : Prop :=
   (exists s, x = DStr s /\ jv_string jv = Some s)
   \/ (exists s, col_kind c = KString /\ ti_json_own (col_info c) = false /\ x = typed c (PStr s) /\ jv_string jv = Some s)
-  \/ (exists z, col_kind c = KInt64 /\ ti_json_own (col_info c) = false /\ x = typed_int c z /\ jv_i64 jv = Some z)
-  \/ (exists z, col_kind c = KUint64 /\ ti_json_own (col_info c) = false /\ x = typed_int c z /\ jv_u64 jv = Some z)
+  \/ (exists z, col_kind c = KInt64 /\ ti_json_own (col_info c) = false /\ x = typed_int c z /\ conv_int (col_bkind c) z = z /\ jv_i64 jv = Some z)
+  \/ (exists z, col_kind c = KUint64 /\ ti_json_own (col_info c) = false /\ x = typed_int c z /\ conv_int (col_bkind c) z = z /\ jv_u64 jv = Some z)
   \/ (exists p, ti_json_own (col_info c) = true /\ x = typed c p /\ lookup (col_type c) (jv_native jv) = Some (Some p)).
 Definition yaml_holds_decodable (c : column) (yv : yview) (x : dyn) : Prop :=
   (exists s, x = DStr s /\ yv_value yv = s)
   \/ (exists s, col_kind c = KString /\ ti_yaml_own (col_info c) = false /\ x = typed c (PStr s) /\ yv_value yv = s)
-  \/ (exists z, col_kind c = KInt64 /\ ti_yaml_own (col_info c) = false /\ x = typed_int c z /\ yv_i64 yv = Some z)
-  \/ (exists z, col_kind c = KUint64 /\ ti_yaml_own (col_info c) = false /\ x = typed_int c z /\ yv_u64 yv = Some z)
+  \/ (exists z, col_kind c = KInt64 /\ ti_yaml_own (col_info c) = false /\ x = typed_int c z /\ conv_int (col_bkind c) z = z /\ yv_i64 yv = Some z)
+  \/ (exists z, col_kind c = KUint64 /\ ti_yaml_own (col_info c) = false /\ x = typed_int c z /\ conv_int (col_bkind c) z = z /\ yv_u64 yv = Some z)
   \/ (exists p, ti_yaml_own (col_info c) = true /\ x = typed c p /\ lookup (col_type c) (yv_native yv) = Some (Some p)).
 
 Lemma json_partial : forall d o t, wf_defn d -> gen d o = Built t ->
@@ -218,7 +218,7 @@ Lemma json_partial : forall d o t, wf_defn d -> gen d o = Built t ->
   decode_json t jv = Some (g_z (r_owner r)).
 Proof.
   intros d o t Hwf Hg c r jv Hc Hp Hr H Hu.
-  destruct H as [[s [E V]]|[[s [K [O [E V]]]]|[[z [K [O [E V]]]]|[[z [K [O [E V]]]]|[p [O [E V]]]]]]].
+  destruct H as [[s [E V]]|[[s [K [O [E V]]]]|[[z [K [O [E [F V]]]]]|[[z [K [O [E [F V]]]]]|[p [O [E V]]]]]]].
   - eapply json_plain_string; eauto.
   - eapply json_typed_string; eauto.
   - eapply json_int; eauto.
@@ -233,7 +233,7 @@ Lemma yaml_partial : forall d o t, wf_defn d -> gen d o = Built t ->
   decode_yaml t yv = Some (g_z (r_owner r)).
 Proof.
   intros d o t Hwf Hg c r yv Hc Hp Hr H Hu.
-  destruct H as [[s [E V]]|[[s [K [O [E V]]]]|[[z [K [O [E V]]]]|[[z [K [O [E V]]]]|[p [O [E V]]]]]]].
+  destruct H as [[s [E V]]|[[s [K [O [E V]]]]|[[z [K [O [E [F V]]]]]|[[z [K [O [E [F V]]]]]|[p [O [E V]]]]]]].
   - eapply yaml_plain_string; eauto.
   - eapply yaml_typed_string; eauto.
   - eapply yaml_int; eauto.
